@@ -5,7 +5,8 @@ From BWGen Require Import ExtTable.
 
 Record rfile := {
   rf_path : str; rf_text : str; rf_spans : list cspan;
-  rf_exists : bool;      (* present on disk (walk yields it, read succeeds) *)
+  rf_exists : bool;      (* the directory walk yields it (not hidden, not git-ignored) *)
+  rf_readable : bool;    (* reading it succeeds (it is on disk) *)
   rf_allow : bool;       (* positional globs match (globset oracle) *)
   rf_ignore : bool       (* an --ignore glob matches (globset oracle) *)
 }.
@@ -21,7 +22,7 @@ Definition parse_one (ext_map : list (str * str)) (f : rfile) (all : bool) (lcs 
   match grammar_of ext_table ext_map (rf_path f) with
   | None => None
   | Some _ =>
-    Some (if rf_exists f then
+    Some (if rf_readable f then
             let? bs := parse_file (rf_text f) (rf_spans f) in Ok (select_blocks all lcs bs)
           else Err E_READ)
   end.
